@@ -464,7 +464,7 @@ func (cs *Contracts) ParseContractFile(path string, pkgName string, isSpec bool)
 		line int
 	}
 	var lines []lline
-	heads := []string{"func ", "type ", "spec ", "axiom ", "lemma ", "global ", "props ", "arith ", "requires", "ensures", "assigns", "loop ", "pure", "trusted", "trustframe", "noinline", "fresh ", "note ", "assert", "invariant ", "guarded_by ", "immutable", "decreases ", "ghost ", "lastcall "}
+	heads := []string{"func ", "type ", "spec ", "axiom ", "lemma ", "global ", "props ", "arith ", "requires", "ensures", "assigns", "loop ", "pure", "trusted", "trustframe", "noinline", "fresh ", "note ", "assert", "invariant ", "invariant[", "guarded_by ", "immutable", "decreases ", "ghost ", "lastcall "}
 	for i, raw := range strings.Split(string(data), "\n") {
 		s := strings.TrimSpace(raw)
 		if !strings.HasPrefix(s, "//@") {
@@ -597,8 +597,14 @@ func (cs *Contracts) ParseContractFile(path string, pkgName string, isSpec bool)
 				continue
 			}
 			cs.Axioms = append(cs.Axioms, &Axiom{Name: name, E: e, Text: rest, Src: src, Lemma: strings.HasPrefix(s, "lemma ")})
-		case curT != nil && strings.HasPrefix(s, "invariant "):
-			if c := mkClause("typeinv", "", strings.TrimSpace(s[10:]), src); c != nil {
+		case curT != nil && (strings.HasPrefix(s, "invariant ") || strings.HasPrefix(s, "invariant[")):
+			rest := strings.TrimSpace(s[9:])
+			tag := ""
+			if strings.HasPrefix(rest, "[") {
+				i := strings.Index(rest, "]")
+				tag, rest = rest[:i+1], strings.TrimSpace(rest[i+1:])
+			}
+			if c := mkClause("typeinv", tag, rest, src); c != nil {
 				curT.Invariants = append(curT.Invariants, c)
 			}
 		case curT != nil && strings.HasPrefix(s, "guarded_by "):
